@@ -76,7 +76,11 @@ def gen_examples(rng, nmax=8):
                           # spellings that Unicode normalisation would change (a letter plus a combining mark, the
                           # Angstrom and ohm signs): the examples are the strings as given
                           ['e\u0301', 'o\u0308'], ['cafe\u0301', 'nai\u0308ve'], ['\u212b'], ['5\u2126', '7\u2126'],
-                          ['x\u0301y', 'z\u0308w', 'abc']])
+                          ['x\u0301y', 'z\u0308w', 'abc'],
+                          # optional tails longer than MAX_VRLE_RANGE in two places, each example lacking one of them
+                          ['ab1234-cd', 'ab-cd1234', 'ef-gh5678', 'xy9999-zz'], ['k77777-m', 'k-m88888', 'p-q'],
+                          # one class repeated more than 255 times (lengths within 2 of each other)
+                          ['a' * 256 + '-1', 'b' * 257 + '-2', 'c' * 256 + '-3'], ['0f' * 128, 'e1' * 128, 'ab' * 129]])
         fam = list(fam)
         if rng.random() < 0.5:
             fam.reverse()
@@ -142,8 +146,11 @@ def gen_size(rng):
     """None (defaults) or a Size that forces the sampled / extend path on small inputs."""
     if rng.random() < 0.6:
         return None
-    return dict(do_all=rng.choice([1, 2, 3, 5]), do_all_exceptions=rng.choice([1, 2, 3]),
-                n_per_length=rng.choice([1, 2, 64]), max_sampled_attempts=rng.choice([1, 2, 3]))
+    sz = dict(do_all=rng.choice([1, 2, 3, 5]), do_all_exceptions=rng.choice([1, 2, 3]),
+              n_per_length=rng.choice([1, 2, 64]), max_sampled_attempts=rng.choice([1, 2, 3]))
+    if rng.random() < 0.15:
+        sz['use_sampling'] = False       # with explicit sizes this switches nothing off: samples are still drawn (and seeded)
+    return sz
 
 
 def make_size(spec):
